@@ -193,7 +193,10 @@ func opDiskScan(f []string) string {
 
 func opDiskFind(f []string) string {
 	st := styleOf(f[1])
-	strict := f[2] == "1"
+	// option mask: bit 0 StrictPadding, bit 1 SingleFiles, bit 2 HiddenFiles (the pattern
+	// lookup only ever returns numbered sequences, so the last two must not change it)
+	omask := atoi(f[2])
+	strict := omask%2 == 1
 	pat := unhx(f[3])
 	ents := parseEntries(f[5])
 	root, err := materialise(ents)
@@ -210,6 +213,9 @@ func opDiskFind(f []string) string {
 	var opts []fileseq.FileOption
 	if strict {
 		opts = append(opts, fileseq.StrictPadding)
+	}
+	if (omask/2)%2 == 1 {
+		opts = append(opts, fileseq.SingleFiles)
 	}
 	var o Obs
 	s, err := fileseq.FindSequenceOnDiskPad(real, st, opts...)
@@ -364,6 +370,6 @@ func genDiskFind(r *Rand, n int, thorough bool, emit func(string)) {
 		if r.Chance(1, 25) {
 			pat = dir + "bad\n#name"
 		}
-		emit(fmt.Sprintf("disk.find %s %d %s %s %s", r.Pick([]string{"1", "4"}), r.Intn(2), hx(pat), dirok, entsString(ents)))
+		emit(fmt.Sprintf("disk.find %s %d %s %s %s", r.Pick([]string{"1", "4"}), r.Intn(4), hx(pat), dirok, entsString(ents)))
 	}
 }
